@@ -103,6 +103,10 @@ def c10(run):
     for i in range(nrand):   # byte-level catalogue: more random / truncated payloads
         extra.append({"k": "C10", "in": {"kind": "garbage", "tail": 1, "head": 4, "origin": 0, "amount": 0, "hk": "", "g": rnd.choice(["random", "truncated", "oversize"])},
                       "predicted": {"status": "reset", "heights": [], "spans": []}, "from_tlc": False})
+    # a stalled store (every read blocks until its context ends): the stream must be answered or reset within RequestTimeout
+    for kind, origin, amount, hk in (("range", 2, 2, ""), ("range", 0, 1, ""), ("range", 3, 1, ""), ("hash", 0, 1, "known"), ("hash", 0, 1, "unknown")):
+        extra.append({"k": "C10", "in": {"kind": kind, "tail": 1, "head": 4, "origin": origin, "amount": amount, "hk": hk, "g": "", "stall": True},
+                      "predicted": {"status": "reset", "heights": [], "spans": []}, "from_tlc": False})
     cases, _ = table_flow(run, "Server", "Server.cfg", "C10", "TestServer", "ServerTrace", ["C10_"], extra_cases=extra,
                           sig_fn=lambda c, f: {"kind": c.get("in", {}).get("kind"), "below_tail": c.get("in", {}).get("origin", 0) < c.get("in", {}).get("tail", 0)})
     for c in cases[:2] + cases[200:202]:
@@ -167,10 +171,21 @@ def c09(run):
     run.add_tlc("ExchangeHead.tla decision table (answers x arrival orders x trusted/untrusted mode, quorum arithmetic for n<=6)", res)
     cases = res.exported
     total = len(cases)
+    # replay-only dimension (same prediction): the peer tracker is empty when the request with a trusted head is made,
+    # so it falls back to the trusted peers
+    import copy
+    extra = []
+    for c in cases:
+        if c["in"]["trusted"] and rnd.random() < (0.25 if quick else 1.0):
+            c2 = copy.deepcopy(c)
+            c2["in"]["fallback"] = True
+            extra.append(c2)
+    cases = cases + extra
+    run.cov["fallback_variants"] = len(extra)
     for i, c in enumerate(cases):
         c["id"] = i
     run.cov["rows_total"], run.cov["rows_executed"] = total, len(cases)
-    run.cov["exhaustive"] = total == len(cases)
+    run.cov["exhaustive"] = total <= len(cases) - len(extra)
     for c in cases[:2] + cases[-2:]:
         run.sample({"in": c["in"], "predicted": c["predicted"]})
     run.cov["rule"] = ("every multiset of answers (header ids with verification class, fail, hang) of 1..%d asked peers in every arrival order, "
